@@ -836,9 +836,30 @@ def conc_oracle(case_text, real_lines):
         c = calls[tid][ci]
         if res == "err:panic":
             fails.append(("nofail", f"t{tid} call {ci} `{' '.join(c)}` panicked"))
+        if c[0] == "iter":
+            s0, s1 = started.get((tid, ci), 0), ended.get((tid, ci), 10**9)
+            snaps, base = set(), None
+            for (i, tid2, frm, to, idx, cas) in steps:
+                if idx is not None and i < s0: base = idx
+                if idx is not None and s0 <= i <= s1: snaps.add(tuple(sorted(idx, key=lambda k: bytes.fromhex(k) if k != "-" else b"")))
+            if base is not None or not snaps: snaps.add(tuple(sorted(base or {}, key=lambda k: bytes.fromhex(k) if k != "-" else b"")))
+            # a write whose lock section overlaps the call may be (in)visible without an observed index in between
+            writers = any(cc[0] in ("put", "remove", "remove_range") and started.get((t2, ci2), 10**9) <= s1 and ended.get((t2, ci2), 10**9) >= s0 for t2, cs in calls.items() for ci2, cc in enumerate(cs) if t2 != tid)
+            got = tuple(x for x in res[len("keys:["):-1].split(";") if x) if res.startswith("keys:[") else None
+            if got is None:
+                fails.append(("read_atomic", f"t{tid} iter failed: {res}"))
+            elif got not in snaps and not writers:
+                fails.append(("read_atomic", f"t{tid} iter (steps {s0}..{s1}) = {res}: not the key list of the index at any instant of the call {sorted(snaps)}"))
+            continue
         if c[0] in ("get", "size", "reader", "range"):
             s0, s1 = started.get((tid, ci), 0), ended.get((tid, ci), 10**9)
             vals = value_sets(c[1], s0, s1)
+            if c[0] == "range" and len(c) >= 4 and res.startswith("err:cas.InvalidRange"):
+                # the sequential specification of get_range: start above the clamped end of a non-empty remainder
+                a_, b_ = int(c[2]), int(c[3])
+                if not any(v and v[1] > a_ and min(b_, v[1]) < a_ for v in vals):
+                    fails.append(("read_atomic", f"t{tid} `{' '.join(c)}` (steps {s0}..{s1}) = {res}, but no value the key held during the call makes that range invalid: {vals}"))
+                continue
             if res.startswith("err:") and res != "err:BlobDataMissing" and c[0] in ("get", "reader", "range") and any(v and v[0] in sabotaged for v in vals):
                 pass                                   # reading a blob the case itself obstructed
             elif res.startswith("err:"):
@@ -850,7 +871,12 @@ def conc_oracle(case_text, real_lines):
                 if int(res[5:]) not in {v[1] for v in vals if v}:
                     fails.append(("read_atomic", f"t{tid} `{' '.join(c)}` = {res}, sizes held {vals}"))
             elif res.startswith("bytes:"):
-                ok = {"bytes:" + show_content(known[v[0]]) for v in vals if v and v[0] in known}
+                def cut(b):
+                    if c[0] == "range" and len(c) >= 4:
+                        a_, b_ = int(c[2]), min(int(c[3]), len(b))
+                        return b"" if len(b) <= a_ else b[a_:b_]
+                    return b
+                ok = {"bytes:" + show_content(cut(known[v[0]])) for v in vals if v and v[0] in known}
                 ln = int(res[6:].split(":")[0])
                 if (res not in ok) if ok else (ln not in {v[1] for v in vals if v}):
                     fails.append(("read_atomic", f"t{tid} `{' '.join(c)}` (steps {s0}..{s1}) = {res}: not the whole content of any value the key held during the call {sorted(ok)}"))
